@@ -55,6 +55,7 @@ def plan(pid, tier):
     T = tier == "thorough"
     P = {
         "C01": [job("C01", "race", timeout=1500, parts=8)],
+        "C02": [job("C02", "race", timeout=1500, parts=8)],
         "C03": [job("C03", "race", timeout=1500, parts=8), job("GATED", "race", arg="C03", timeout=1500, parts=4)],
         "C04": [job("C04", "race", timeout=1500, parts=8), job("GATED", "race", arg="C04", timeout=1500, parts=4)],
         "C13": [job("C13", "race", timeout=1500, parts=8), job("GATED", "race", arg="C13", timeout=1500, parts=4)],
@@ -62,6 +63,7 @@ def plan(pid, tier):
         "C05": [job("C05X", "race", timeout=1500, parts=8), job("GATED", "race", arg="C05", timeout=1500, parts=4)],
         "C06": [job("GATED", "race", arg="C06", timeout=1500, parts=8)],
         "C15": [job("GATED", "race", arg="C15", timeout=1500, parts=8)],
+        "C08": [job("C08", "race", timeout=1500, parts=8)] + ([job("C08", "race", timeout=1500, parts=4, procs=p) for p in (1, 2, 4)] if T else []),
         "C10": [job("C10", "ptr", timeout=1500, parts=6)],
         "C11": [job("C11", "ptr", timeout=1500, parts=8)],
         "C12": [job("C12", "race", timeout=1500, parts=6), job("C12", "ptr", arg="bulk", timeout=1500, parts=6)],
